@@ -200,7 +200,7 @@ Qed.
 (* ================================================================================================================= *)
 (* 4. what clean_turtle_term / resolve_query_term make of a written term                                                 *)
 Record tval (R v : str) : Prop := {
-  tv_clean : clean_ttl R = Some v;
+  tv_clean : clean_ttl R = v;
   tv_resolve : resolve v = v;
   tv_noqt : starts_with sLTLT v = false;
   tv_dot : str_eqb R [cDOT] = false;
@@ -220,15 +220,37 @@ Proof.
   split; try assumption; try reflexivity.
   unfold clean_ttl. rewrite trim_angle, angle_not_ltlt by assumption.
   rewrite ends_with_angle. cbn [angle starts_with]. rewrite N.eqb_refl. cbn [andb].
-  change (cLT :: s ++ [cGT]) with (angle s). now rewrite strip1_angle.
+  change (cLT :: s ++ [cGT]) with (angle s). apply strip1_angle.
 Qed.
 
 Lemma ends_with_quoted : forall v, ends_with [cDQ] (quoted v) = true.
 Proof. intro v. unfold quoted. change (cDQ :: escape v ++ [cDQ]) with ((cDQ :: escape v) ++ [cDQ]). apply ends_with_snoc. Qed.
 
-Lemma clean_ttl_quoted : forall v, clean_ttl (quoted v) = Some v.
+Lemma clean_ttl_quoted : forall v, clean_ttl (quoted v) = v.
 Proof.
-  intro v. unfold clean_ttl. rewrite trim_quoted, ends_with_quoted, decode_quoted. reflexivity.
+  intro v. unfold clean_ttl. rewrite trim_quoted, decode_quoted. reflexivity.
+Qed.
+
+(* the annotation markers are searched after a leading literal only: nothing is found in a written term *)
+Definition no_marker (O : str) : Prop := find_sub sANN_OPEN (ann_searched O) = None.
+
+Lemma find_sub_none : forall l, forallb (fun c => negb (c =? cLBRACE)) l = true -> find_sub sANN_OPEN l = None.
+Proof.
+  induction l as [|c l IH]; intro H; [reflexivity|].
+  cbn in H. apply andb_true_iff in H as [Hc Hl]. apply negb_true_iff in Hc.
+  cbn [find_sub sANN_OPEN starts_with]. rewrite N.eqb_sym, Hc. cbn [andb]. now rewrite (IH Hl).
+Qed.
+
+Lemma tterm_no_marker : forall R v, tterm R v -> no_marker R.
+Proof.
+  intros R v [s H|v']; unfold no_marker, ann_searched.
+  - replace (starts_with [cDQ] (angle s)) with false by reflexivity. apply find_sub_none.
+    unfold angle. cbn [forallb]. rewrite forallb_app. cbn [forallb].
+    replace (negb (cLT =? cLBRACE)) with true by reflexivity. replace (negb (cGT =? cLBRACE)) with true by reflexivity.
+    cbn [andb]. rewrite andb_true_r. apply forallb_forall. intros c Hc. rewrite forallb_forall in H.
+    specialize (H c Hc). unfold iri_char, cLT, cGT, cDQ, cLBRACE, cRBRACE, cBAR, cCARET, cBS in H.
+    unfold cLBRACE. lia.
+  - replace (starts_with [cDQ] (quoted v')) with true by reflexivity. rewrite decode_quoted. reflexivity.
 Qed.
 
 Lemma wf_obj_not_qt : forall o, wf_obj o = true -> starts_with sLTLT o = false.
@@ -280,12 +302,13 @@ Section Machine.
   Definition after_sep (last : bool) (out : list quad) : gst :=
     if last then GS None None [] true false false out None else GS (Some S) None [] false true false out None.
 
-  Lemma g_flush_one : forall P p O o es ep eo out, tval P p -> tval O o -> annot_text O = false ->
+  Lemma g_flush_one : forall P p O o es ep eo out, tval P p -> tval O o -> no_marker O ->
     g_flush (GS (Some S) (Some P) [O] es ep eo out None) = GS (Some S) (Some P) [] es ep eo (out ++ [trip p o]) None.
   Proof.
     intros P p O o es ep eo out HP HO Ha. unfold g_flush.
     cbn [g_subj g_pred g_objs g_es g_ep g_eo g_out g_bad is_nil join].
-    unfold annot_text in Ha. rewrite Ha.
+    unfold no_marker in Ha. rewrite Ha. unfold g_emit.
+    cbn [g_subj g_pred g_objs g_es g_ep g_eo g_out g_bad map app].
     rewrite (tv_clean _ _ HS), (tv_clean _ _ HP), (tv_clean _ _ HO).
     rewrite (tv_resolve _ _ HS), (tv_resolve _ _ HP), (tv_resolve _ _ HO).
     rewrite (tv_noqt _ _ HS), (tv_noqt _ _ HO). reflexivity.
@@ -303,7 +326,7 @@ Section Machine.
     intros P p eo out HP. unfold g_step. rewrite (tv_dot _ _ HP), (tv_semi _ _ HP), (tv_comma _ _ HP). reflexivity.
   Qed.
 
-  Definition obj_ok (o : str) : Prop := tval (ttl_obj o) o /\ annot_text (ttl_obj o) = false.
+  Definition obj_ok (o : str) : Prop := tval (ttl_obj o) o /\ no_marker (ttl_obj o).
 
   Lemma objs_run : forall (P p : str) (last : bool) (rest : list str), tval P p ->
     forall r oprev out eo, obj_ok oprev -> (forall o, In o r -> obj_ok o) ->
@@ -351,7 +374,7 @@ End Machine.
 
 (* ================================================================================================================= *)
 (* 6. one block, then the document                                                                                      *)
-Definition obj_good (o : str) : Prop := wf_obj o = true /\ dd_ttl_term o = false /\ annot_text (ttl_obj o) = false.
+Definition obj_good (o : str) : Prop := wf_obj o = true /\ dd_ttl_term o = false.
 Definition entry_good (e : entry) : Prop :=
   forallb iri_char (fst e) = true /\ snd e <> [] /\
   forall pe, In pe (snd e) -> forallb iri_char (fst pe) = true /\ snd pe <> [] /\ forall o, In o (snd pe) -> obj_good o.
@@ -407,7 +430,8 @@ Lemma pred_ok_of_good : forall pe,
   (forallb iri_char (fst pe) = true /\ snd pe <> [] /\ forall o, In o (snd pe) -> obj_good o) -> pred_ok pe.
 Proof.
   intros pe (H1 & H2 & H3). split; [now apply tval_angle|split; [assumption|]].
-  intros o Ho. destruct (H3 o Ho) as (Hw & Hd & Ha). split; [now apply tval_obj|assumption].
+  intros o Ho. destruct (H3 o Ho) as (Hw & Hd). split; [now apply tval_obj|].
+  apply (tterm_no_marker _ o). now apply ttl_obj_tterm.
 Qed.
 
 Lemma entry_line : forall e, entry_good e ->
@@ -466,18 +490,16 @@ Proof.
   assert (Hdef : forall q, In q ts -> is_default q = true).
   { intros q Hq. unfold ts, default_part in Hq. now apply filter_In in Hq. }
   assert (Hflat : forall t, In t (flat_group g) <-> In t ts) by (intro t; now apply group_flat).
-  unfold known_ttl in Hk. apply orb_false_iff in Hk as [Hk1 Hk2].
+  unfold known_ttl in Hk. rename Hk into Hk1.
   unfold wf_db in Hwf. rewrite forallb_forall in Hwf.
-  assert (Hq : forall q, In q ts -> wf_quad q = true /\ dd_ttl_term (qd_o q) = false /\ annot_text (ttl_obj (qd_o q)) = false).
-  { intros q Hq. unfold ts, default_part in Hq. apply filter_In in Hq as [Hq Hd]. split; [now apply Hwf|split].
-    - destruct (dd_ttl_term (qd_o q)) eqn:E; [|reflexivity].
-      assert (known_dd_ttl db = true) by (apply existsb_exists; exists q; now rewrite Hd, E). congruence.
-    - destruct (annot_text (ttl_obj (qd_o q))) eqn:E; [|reflexivity].
-      assert (known_ttl_annot db = true) by (apply existsb_exists; exists q; now rewrite Hd, E). congruence. }
+  assert (Hq : forall q, In q ts -> wf_quad q = true /\ dd_ttl_term (qd_o q) = false).
+  { intros q Hq. unfold ts, default_part in Hq. apply filter_In in Hq as [Hq Hd]. split; [now apply Hwf|].
+    destruct (dd_ttl_term (qd_o q)) eqn:E; [|reflexivity].
+    assert (known_dd_ttl db = true) by (apply existsb_exists; exists q; now rewrite Hd, E). congruence. }
   assert (Hgood : forall e, In e g -> entry_good e).
   { intros e He. destruct (group_good ts e He) as [Hne Hpe].
     assert (Hall : forall pe o, In pe (snd e) -> In o (snd pe) ->
-                   wf_quad (fst e, fst pe, o, None) = true /\ dd_ttl_term o = false /\ annot_text (ttl_obj o) = false).
+                   wf_quad (fst e, fst pe, o, None) = true /\ dd_ttl_term o = false).
     { intros pe o H1 H2. apply (Hq (fst e, fst pe, o, None)). apply Hflat. now apply in_flat_group. }
     split; [|split; [assumption|]].
     - destruct (snd e) as [|pe ps] eqn:E; [congruence|].
@@ -491,7 +513,7 @@ Proof.
         destruct (Hall pe o Hin) as (Hw & _); [rewrite E2; now left|].
         unfold wf_quad in Hw. apply andb_true_iff in Hw as [Hw _]. apply andb_true_iff in Hw as [Hw _].
         apply andb_true_iff in Hw as [_ Hw]. now apply wf_iri_chars.
-      + intros o Ho. destruct (Hall pe o Hin Ho) as (Hw & Hd & Ha). split; [|split; assumption].
+      + intros o Ho. destruct (Hall pe o Hin Ho) as (Hw & Hd). split; [|assumption].
         unfold wf_quad in Hw. apply andb_true_iff in Hw as [Hw _]. now apply andb_true_iff in Hw as [_ Hw]. }
   exists (flat_group g). split; [|exact Hflat].
   unfold load_ttl, gen_ttl, gen_ttl_triples. fold ts. fold g.
@@ -511,8 +533,15 @@ Proof.
   assert (H' : same_set b a) by (intro q; symmetry; apply H). now rewrite (same_set_subsetb b a H').
 Qed.
 
-Definition annot_witness : list quad :=
-  [([104;116;116;112;58;47;47;97;47;115], [104;116;116;112;58;47;47;97;47;112], [97; 32; 123; 124; 32; 98; 32; 99; 32; 124; 125; 32; 100], None)].
+(* regression (commit e7e251c): the pre-fix loader searched the whole object text, quotes included, for the markers;
+   on the written literal "a {| b c |} d" that search finds an annotation block (and on "{|}" the markers overlap,
+   which made the slice panic), the repaired search finds none *)
+Definition annot_lit : str := quoted [97; 32; 123; 124; 32; 98; 32; 99; 32; 124; 125; 32; 100].
+Lemma annot_regression :
+  (exists pre post content rest, find_sub sANN_OPEN annot_lit = Some (pre, post) /\ find_sub sANN_CLOSE post = Some (content, rest)) /\
+  find_sub sANN_OPEN (ann_searched annot_lit) = None /\
+  find_sub sANN_OPEN (ann_searched (quoted [123; 124; 125])) = None.
+Proof. split; [|split; vm_compute; reflexivity]. do 4 eexists. split; vm_compute; reflexivity. Qed.
 
 Lemma ttl_dd_refuted : wf_db dd_witness = true /\ known_dd_ttl dd_witness = true /\
   ~ exists l, load_ttl (gen_ttl dd_witness) = TOk l /\ same_set l (default_part dd_witness).
